@@ -100,6 +100,7 @@ case_st = st.fixed_dictionaries({
     "hops": st.sampled_from([0, 1, 1, 2, 2, 3, 3, 4, 4]).flatmap(lambda n: st.lists(hop_st, min_size=n, max_size=n)),
     "again": st.one_of(st.none(), st.integers(0, 7)),
     "method": st.sampled_from(["GET", "GET", "GET", "HEAD"]),
+    "finalloc": st.sampled_from([None, None, "rel", "abs"]),
 })
 
 
@@ -178,7 +179,8 @@ def make_app(idx, table, log):
         head = environ["REQUEST_METHOD"] == "HEAD"       # the reply to a HEAD carries the headers only
         if act["kind"] == "final":
             body = b"final:%d" % act["pos"]
-            start_response("200 OK", [("Content-Type", "text/plain"), ("Content-Length", str(len(body)))])
+            extra = [("Location", act["location"])] if act.get("location") else []      # not a redirect: nothing to follow
+            start_response("200 OK", [("Content-Type", "text/plain"), ("Content-Length", str(len(body)))] + extra)
             return [] if head else [body]
         body = b"x" * act["bodylen"]
         start_response("%d %s" % (act["code"], CODES[act["code"]]),
@@ -230,6 +232,9 @@ def run_case(case):
             locations.append(loc)
             table[key(positions[i])] = {"kind": "redirect", "code": hop["code"], "location": loc, "bodylen": hop["bodylen"]}
         table[key(positions[-1])] = {"kind": "final", "pos": len(positions) - 1}
+        if case.get("finalloc"):
+            # the final (non 3xx) response names a resource in a Location header, as a 201 / 200 may: it is the final response
+            table[key(positions[-1])]["location"] = {"rel": "/created/17", "abs": "http://127.0.0.1:%d/created/17" % ports[positions[-1][0]]}[case["finalloc"]]
 
         s0, p0, q0 = positions[0]
         patron = clienting.Patron(hostname="127.0.0.1", port=ports[s0], store=store, bufsize=65536)
@@ -597,6 +602,8 @@ def classify(case):
     if case.get("again") is not None:
         cls.append("second-request-same-patron")
     cls.append("method:" + case.get("method", "GET"))
+    if case.get("finalloc"):
+        cls.append("final-response-with-location-header")
     cls = sorted(set(cls))
     if nt:
         cls.append("non-trivial")
